@@ -40,6 +40,11 @@ void harness(void)
 	for (unsigned k = 0; k < NOID; k++) {
 		ASSUME(in.oid[k] != 0);
 		for (unsigned j = 0; j < k; j++) ASSUME(in.oid[k] != in.oid[j]);
+#if defined LOWFIX
+		/* the table slot of each oid (its low 4 bits) is fixed per oid, all higher bits are symbolic:
+		 * keeps the open-addressing index concrete; colliding low bits are the table_growth obligation */
+		ASSUME((in.oid[k] & 15) == (long long)(3 * k + 1));
+#endif
 #if defined LOWBITS
 		/* keep the table small: any two oids differ within their low LOWBITS bits
 		 * (oids sharing more low bits make put_task_slot() ask for 2^(k+1) slots) */
